@@ -213,10 +213,17 @@ pub fn eval(expr: Node) -> Result<Decimal, Box<dyn error::Error>> {
             }
             Ok(x)
         }
-        Sqrt(sub_expr) => match eval(*sub_expr)?.sqrt() {
-            Some(result) => Ok(result),
-            None => Err("Unable to compute the square root of negative number".into()),
-        },
+        Sqrt(sub_expr) => {
+            let sub_result = eval(*sub_expr)?;
+            if sub_result.is_zero() {
+                // also covers the negative zero that -0 or -(1-1) produce
+                return Ok(Decimal::ZERO);
+            }
+            match sub_result.sqrt() {
+                Some(result) => Ok(result),
+                None => Err("Unable to compute the square root of negative number".into()),
+            }
+        }
         Root(n_th_expr, x_expr) => {
             let x = eval(*x_expr)?;
             let exponent = Decimal::new(1, 0)
